@@ -4,6 +4,7 @@ package storage
 
 import (
 	"errors"
+	"strconv"
 	"strings"
 	"sync"
 
@@ -391,4 +392,48 @@ func VerifC02() {
 		verifCheckContents(p, m, dim, nIds, link)
 	}
 	verifrt.Reach("end")
+}
+
+// VerifC02BigMeta: the entry-count limit of the snapshot format (65535 metadata
+// entries per item) on the update path, where the stored and the new metadata
+// are merged: each map is representable on its own, the union is not. The
+// update (single or batch) must be refused and change nothing.
+func VerifC02BigMeta() {
+	n := verifrt.Bound("keys", 40000)
+	p := verifPartition(1, verifIdxConfigs()[0])
+	mk := func(prefix string) map[string]string {
+		m := make(map[string]string, n)
+		for i := 0; i < n; i++ {
+			m[prefix+strconv.Itoa(i)] = "v"
+		}
+		return m
+	}
+	metaA, metaB := mk("a"), mk("b")
+	res, got := verifApply(p, &pb.PartitionChange{Type: pb.PartitionChangeType_PartitionChangeInsertValue, Id: verifItemId(0).Bytes(), Value: []float32{1}, Metadata: metaA})
+	verifrt.Assert(got && res == nil, "insert-new-ok")
+	sizeBefore := p.index.BytesSize()
+	batch := verifrt.Choose("batch", 2) == 1
+	var err error
+	if batch {
+		res, got = verifApply(p, &pb.PartitionChange{Type: pb.PartitionChangeType_PartitionChangeBatchUpdateValue,
+			BatchItems: []*pb.BatchItem{{Id: verifItemId(0).Bytes(), Value: []float32{2}, Metadata: metaB}}})
+		verifrt.Assert(got, "outcome-delivered")
+		if got {
+			err = res.(partitionBatchResult)[verifItemId(0)]
+		}
+	} else {
+		res, got = verifApply(p, &pb.PartitionChange{Type: pb.PartitionChangeType_PartitionChangeUpdateValue, Id: verifItemId(0).Bytes(), Value: []float32{2}, Metadata: metaB})
+		verifrt.Assert(got, "outcome-delivered")
+		if res != nil {
+			err = res.(error)
+		}
+	}
+	verifrt.Assert(err != nil, "unrepresentable-metadata-refused")
+	v, gerr := p.index.Get(verifItemId(0))
+	verifrt.Assert(gerr == nil && len(v) == 1 && v[0] == 1, "refused-update-changes-nothing")
+	verifrt.Assert(p.index.Len() == 1 && p.index.BytesSize() == sizeBefore, "refused-update-changes-nothing")
+	if vx, verr := p.index.GetVertex(verifItemId(0)); verr == nil {
+		verifrt.Assert(len(vx.Metadata()) == n, "refused-update-changes-nothing")
+	}
+	verifrt.Reach("bigmeta-end")
 }
